@@ -42,6 +42,7 @@ DECIDED = [
     "C05.5 reversal guards in the traversal loop (T.G5)",
     "C05.6 is_cleanup_ready table; drop_child single site",
     "C05.7 defaults: pool_filter 'reuse', unset_mode 'ri'",
+    "C05.7 involved workers = both pick registers over all run swarms; drop_child/pick_child register (node, worker) in the right register",
 ]
 NOT_DECIDED = ["lazily added dependants beyond the unexplored_nodes guard", "timing of removal across workers at run time"]
 MIN_INSTANCES = 25
@@ -273,6 +274,12 @@ def run(ctx: Ctx) -> None:
     ctx.call(T.t_g5, "5/T.G5")
     ctx.call(N.readiness_table, "6", "cleanup")
     ctx.call(N.pick_agreement, "6p", "cleanup")
+    from . import atoms as A
+
+    ctx.call(A.involved_workers, "7i")
+    ctx.call(A.drop_registrations, "7d")
+    ctx.call(A.definitions, "7", only=('shared_finished_workers','is_flat','bridged_nodes'))
+    ctx.call(A.fresh_state, "7f")
 
 
 G = "cartgraph/graph.py"
